@@ -100,12 +100,15 @@ def prove(hyps, goal, timeout_ms=None):
     return check_sat(list(hyps) + [z3.Not(goal)], timeout_ms)
 
 
-def feasible(hyps, timeout_ms=2000):
-    """cheap path-feasibility test; `unknown` counts as feasible"""
+def feasible(hyps, timeout_ms=1000):
+    """cheap path-feasibility test; `unknown` counts as feasible.
+    Quantified hypotheses are dropped (over-approximation: more paths are
+    explored, never fewer)."""
     s = z3.Solver()
     s.set("timeout", timeout_ms)
     for f in hyps:
-        s.add(f)
+        if not _has_quant(f):
+            s.add(f)
     return s.check() != z3.unsat
 
 
